@@ -198,10 +198,10 @@ Definition clause_of (o : op) : Z :=
 Definition obs_ok (m : mon) (a' : abook) (expect : obs) (o : op) (x : obs) : bool :=
   match o, expect, x with
   | OConsume _ _ _ _ _ _, OVal e, OVal v => e =? v
-  | OAddrs _, OList e, OList v => seteq e v && nodup_b v
+  | OAddrs _, OList e, OList v => seteq e v
   | OGetRec _, OVal e, OVal v => e =? v
-  | OPeers, OList e, OList v => incl_b e v && incl_b v (mo_cand m) && nodup_b v
-  | OGC, OSizes st rc _, OSizes st' rc' _ => (st' =? st) && (rc' <=? zlen' (a_peers a'))
+  | OPeers, OList e, OList v => incl_b e v && incl_b v (mo_cand m)
+  | OGC, OSizes st rc _, OSizes st' rc' _ => (st' =? st) && (rc' <=? rc)
   | _, ONone, ONone => true
   | _, _, _ => false
   end.
